@@ -447,7 +447,7 @@ class Interp:
             return Fn("lib", name="builtins." + last)
         if fq in ("operator.or_",):
             return Fn("lib", name="operator.or_")
-        if fq in ("itertools.groupby", "operator.itemgetter", "itertools.accumulate", "itertools.product", "itertools.chain", "itertools.chain.from_iterable", "itertools.repeat", "itertools.islice"):
+        if fq in ("itertools.groupby", "operator.itemgetter", "itertools.accumulate", "itertools.product", "itertools.chain", "itertools.chain.from_iterable", "itertools.repeat", "itertools.islice", "itertools.pairwise"):
             return Fn("lib", name=fq)
         if fq in ("copy.deepcopy", "copy.copy"):
             return Fn("lib", name=fq)
@@ -457,6 +457,11 @@ class Interp:
             import re as _re
             if isinstance(getattr(_re, last, None), _re.RegexFlag):
                 return Const(getattr(_re, last))
+        if root == "datetime" and last in ("min", "max", "resolution", "utc") and fq.count(".") == 2:
+            import datetime as _dtm
+            owner = getattr(_dtm, fq.split(".")[1], None)
+            if isinstance(owner, type) and not callable(getattr(owner, last, None)) and hasattr(owner, last):
+                return Const(getattr(owner, last))  # class constants of the standard library (datetime.time.min)
         if fq == "collections.OrderedDict":
             return Fn("lib", name="builtins.dict")
         if fq == "types.MappingProxyType":
@@ -829,6 +834,8 @@ class Interp:
         if isinstance(v, (DictS, ListLit, ListOf, TupS, Const, Leaf, SetS, Choice, Top)):
             return Fn("method", recv=v, name=attr)
         if isinstance(v, Fn) and v.kind == "lib":
+            if str(v.name).startswith("datetime.") and attr in ("min", "max", "resolution", "utc"):
+                return self.external(f"{v.name}.{attr}")
             return Fn("lib", name=f"{v.name}.{attr}")
         if isinstance(v, Fn) and v.kind == "classctor":
             found = self.find_class_attr(v.mod, v.cls, attr) if getattr(v, "mod", None) is not None else None
@@ -845,6 +852,8 @@ class Interp:
                         return Fn("repo", func=fi, name=fi.qualname, closure=None)  # plain function through the class
                 elif kind == "value":
                     return self.eval(item, self.module_scope(mod_))
+            if str(v.name).startswith("datetime.") and attr in ("min", "max", "resolution", "utc"):
+                return self.external(f"{v.name}.{attr}")
             return Fn("lib", name=f"{v.name}.{attr}")
         return Top(f"attribute {attr} of {type(v).__name__}")
 
@@ -901,6 +910,9 @@ class Interp:
             return self.call(self.getattr(v, "__getitem__"), [k], {}, node)
         if isinstance(v, Choice):
             return Choice([self.getitem(a, k, node) for a in v.alts])
+        if isinstance(k, Choice) and isinstance(v, (DictS, ListLit, TupS)) and all(isinstance(a, Const) for a in k.alts):
+            # table[<one of several known keys>]: the entry of each alternative, under the alternative's condition
+            return Choice([self.getitem(v, a, node) for a in k.alts], list(k.labels))
         if isinstance(v, DictS) and isinstance(k, Leaf) and v.items and not v.optional and not self.strict:
             # table[<field value>]: one alternative per entry (a key outside the table raises KeyError and yields nothing)
             t = getattr(v, "table", None)
@@ -1270,6 +1282,28 @@ class Interp:
     # ------------------------------------------------------------- statements
     def exec_block(self, stmts, sc, yields):
         for i, st in enumerate(stmts):
+            if isinstance(st, ast.Assign) and len(st.targets) == 1 and isinstance(st.targets[0], ast.Tuple) and all(isinstance(t, ast.Name) for t in st.targets[0].elts) and stmts[i + 1:]:
+                # `a, b = table[key]` with one of several known entries: the names belong together, the rest of the block runs once per entry
+                val = self.eval(st.value, sc)
+                n_t = len(st.targets[0].elts)
+                if isinstance(val, Choice) and 1 < len(val.alts) <= 24 and all(isinstance(a, (TupS, ListLit)) and len(a.elts) == n_t for a in val.alts):
+                    results, labels = [], []
+                    for alt, lab in zip(val.alts, val.labels):
+                        s2 = sc.child()
+                        self.bind(st.targets[0], alt, s2)
+                        try:
+                            self.exec_block(stmts[i + 1:], s2, yields)
+                            raise ShapeError(f"case split on {norm(st.targets[0])}: a branch falls through without returning")
+                        except _Return as r:
+                            results.append(r.v)
+                            labels.append(lab)
+                        except _Raise:
+                            continue
+                    if not results:
+                        raise _Raise("all cases raise")
+                    raise _Return(Choice(results, labels) if len(results) > 1 else results[0])
+                self.bind(st.targets[0], val, sc)
+                continue
             self.exec_stmt(st, sc, yields)
             # case split: a name bound to a small choice of constants forks the rest of the block
             if isinstance(st, ast.Assign) and len(st.targets) == 1 and isinstance(st.targets[0], ast.Name):
